@@ -143,19 +143,125 @@ def _cvc5_model(txt, timeout_ms):
         os.unlink(path)
     if not out.startswith('sat'):
         return None, out[:2000]
+    return _parse_cvc5_model(out), out[:6000]
+
+
+def _sexprs(txt):
+    """minimal SMT-LIB s-expression reader: nested lists of atoms; string literals keep their quotes"""
+    i, n = 0, len(txt)
+    stack = [[]]
+    while i < n:
+        ch = txt[i]
+        if ch.isspace():
+            i += 1
+        elif ch == ';':
+            while i < n and txt[i] != '\n':
+                i += 1
+        elif ch == '(':
+            stack.append([])
+            i += 1
+        elif ch == ')':
+            done = stack.pop()
+            stack[-1].append(done)
+            i += 1
+        elif ch == '"':
+            j = i + 1
+            while j < n:
+                if txt[j] == '"':
+                    if j + 1 < n and txt[j + 1] == '"':
+                        j += 2
+                        continue
+                    break
+                j += 1
+            stack[-1].append(txt[i:j + 1])
+            i = j + 1
+        elif ch == '|':
+            j = txt.index('|', i + 1)
+            stack[-1].append(txt[i + 1:j])
+            i = j + 1
+        else:
+            j = i
+            while j < n and not txt[j].isspace() and txt[j] not in '()':
+                j += 1
+            stack[-1].append(txt[i:j])
+            i = j
+    return stack[0]
+
+
+def _cvc5_value(v):
+    """cvc5 model value (s-expression) -> the python shape _pyval produces; None-able: returns ('?', text) when not understood"""
+    if isinstance(v, str):
+        if v.startswith('"'):
+            sv = v[1:-1].replace('""', '"')
+            return re.sub(r'\\u\{([0-9a-fA-F]+)\}', lambda mm: chr(int(mm.group(1), 16)), sv)
+        if re.fullmatch(r'\d+', v):
+            return int(v)
+        if re.fullmatch(r'\d+\.\d+', v):
+            return float(v)
+        if v == 'true':
+            return True
+        if v == 'false':
+            return False
+        if v.startswith('none_'):
+            return None
+        return {'sexpr': v}
+    if not v:
+        return {'sexpr': '()'}
+    h = v[0]
+    if h == '-' and len(v) == 2:
+        x = _cvc5_value(v[1])
+        return -x if isinstance(x, (int, float)) else {'sexpr': str(v)}
+    if h == '/' and len(v) == 3:
+        a, b = _cvc5_value(v[1]), _cvc5_value(v[2])
+        return a / b if isinstance(a, (int, float)) and isinstance(b, (int, float)) and b else {'sexpr': str(v)}
+    if h == 'as' and len(v) == 3:
+        if v[1] == 'seq.empty':
+            return []
+        if isinstance(v[1], str) and v[1].startswith('none_'):
+            return None
+        return _cvc5_value(v[1])
+    if h == 'seq.unit' and len(v) == 2:
+        return [_cvc5_value(v[1])]
+    if h == 'seq.++':
+        out = []
+        for x in v[1:]:
+            y = _cvc5_value(x)
+            if not isinstance(y, list):
+                return {'sexpr': str(v)[:500]}
+            out.extend(y)
+        return out
+    if isinstance(h, list) and len(h) == 3 and h[0] == 'as' and h[1] == 'const' and len(v) == 2:
+        return {'__default__': _cvc5_value(v[1])}
+    if h == 'store' and len(v) == 4:
+        base = _cvc5_value(v[1])
+        if isinstance(base, dict) and 'sexpr' not in base:
+            base[_key(_cvc5_value(v[2]))] = _cvc5_value(v[3])
+            return base
+        return {'sexpr': str(v)[:500]}
+    if isinstance(h, str) and h.startswith('some_') and len(v) == 2:
+        return _cvc5_value(v[1])
+    if isinstance(h, str) and h.startswith('mk_'):
+        return {'tuple': [_cvc5_value(x) for x in v[1:]]}
+    return {'sexpr': str(v)[:500]}
+
+
+def _parse_cvc5_model(out):
     model = {}
-    for m in re.finditer(r'\(define-fun (\|[^|]+\||\S+) \(\) (\S+) (.*)\)\s*$', out, re.M):
-        name, sort, val = m.group(1).strip('|'), m.group(2), m.group(3).strip()
-        if sort == 'Int':
-            mm = re.fullmatch(r'\(- (\d+)\)|(\d+)', val)
-            if mm:
-                model[name] = -int(mm.group(1)) if mm.group(1) else int(mm.group(2))
-        elif sort == 'Bool':
-            model[name] = (val == 'true')
-        elif sort == 'String' and val.startswith('"'):
-            sv = val[1:-1].replace('""', '"')
-            model[name] = re.sub(r'\\u\{([0-9a-fA-F]+)\}', lambda mm: chr(int(mm.group(1), 16)), sv)
-    return model, out[:6000]
+    try:
+        body = out[out.index('('):]
+        top = _sexprs(body)
+    except Exception:
+        return model
+    for blk in top:
+        if not isinstance(blk, list):
+            continue
+        for d in blk:
+            if isinstance(d, list) and len(d) == 5 and d[0] == 'define-fun' and d[2] == []:
+                try:
+                    model[d[1]] = _cvc5_value(d[4])
+                except Exception:
+                    pass
+    return model
 
 
 def discharge_one(job):
